@@ -106,6 +106,9 @@ func isErrValue(e ssa.Value, at *ssa.BasicBlock, depth int) bool {
 			return true
 		}
 	case *ssa.Phi:
+		if errNonNilAt(x, at) {
+			return true // `err = f() / err = g(); if err != nil { return err }`
+		}
 		for _, ed := range x.Edges {
 			if !isErrValue(ed, at, depth+1) {
 				return false
